@@ -54,6 +54,8 @@ pub(crate) struct Vec<T> {
 impl<T> Vec<T> {
     /// Constructs a new, empty `Vec<T>` with the specified capacity and matcher columns.
     pub fn with_capacity(capacity: u32, columns: u32) -> Vec<T> {
+        #[cfg(nucleo_verif)]
+        let capacity = crate::verif::knob_capacity(capacity);
         assert_ne!(columns, 0, "there must be atleast one matcher column");
         let init = match capacity {
             0 => 0,
@@ -107,6 +109,8 @@ impl<T> Vec<T> {
             // thread synchronization (essentially acting as a memory barrier)
             // since the caller must only guarantee that he has observed active on any thread
             // but the current thread might still have an old value cached (although unlikely)
+            #[cfg(nucleo_verif)]
+            crate::verif::assert_active(crate::verif::atomic::peek_bool(&(*entry).active), index);
             let _ = (*entry).active.load(Ordering::Acquire);
             Entry::read(entry, self.columns)
         }
@@ -174,11 +178,15 @@ impl<T> Vec<T> {
             //
             // 2. any thread trying to `get` this entry will see `active == false`,
             // and will not try to access it
+            #[cfg(nucleo_verif)]
+            crate::verif::hb::plain_write(entry as usize, "push (before writing the entry)");
             for col in Entry::matcher_cols_raw(entry, self.columns) {
                 col.get().write(MaybeUninit::new(Utf32String::default()))
             }
             fill_columns(&value, Entry::matcher_cols_mut(entry, self.columns));
             (*entry).slot.get().write(MaybeUninit::new(value));
+            #[cfg(nucleo_verif)]
+            crate::verif::hb::plain_write(entry as usize, "push (after writing the entry)");
             // let other threads know that this entry is active
             (*entry).active.store(true, Ordering::Release);
         }
@@ -263,12 +271,16 @@ impl<T> Vec<T> {
             unsafe {
                 let entry = Bucket::get(entries, location.entry, self.columns);
 
+                #[cfg(nucleo_verif)]
+                crate::verif::hb::plain_write(entry as usize, "extend (before writing the entry)");
                 // Initialize matcher columns
                 for col in Entry::matcher_cols_raw(entry, self.columns) {
                     col.get().write(MaybeUninit::new(Utf32String::default()));
                 }
                 fill_columns(&v, Entry::matcher_cols_mut(entry, self.columns));
                 (*entry).slot.get().write(MaybeUninit::new(v));
+                #[cfg(nucleo_verif)]
+                crate::verif::hb::plain_write(entry as usize, "extend (after writing the entry)");
                 (*entry).active.store(true, Ordering::Release);
             }
         }
@@ -285,6 +297,8 @@ impl<T> Vec<T> {
         ) {
             Ok(_) => entries,
             Err(found) => unsafe {
+                #[cfg(nucleo_verif)]
+                crate::verif::probe("boxcar.cas_lost");
                 Bucket::dealloc(entries, len, cols);
                 found
             },
@@ -328,6 +342,8 @@ impl<T> Vec<T> {
 
 impl<T> Drop for Vec<T> {
     fn drop(&mut self) {
+        #[cfg(nucleo_verif)]
+        crate::verif::hb::forget(self as *const _ as usize, std::mem::size_of::<Self>());
         for (i, bucket) in self.buckets.iter_mut().enumerate() {
             let entries = *bucket.entries.get_mut();
 
@@ -527,12 +543,16 @@ impl<T> Bucket<T> {
             let active = entries.add(i as usize * layout.size()) as *mut AtomicBool;
             active.write(AtomicBool::new(false))
         }
+        #[cfg(nucleo_verif)]
+        crate::verif::hb::region_init(entries as usize, arr_layout.size());
         entries as *mut Entry<T>
     }
 
     unsafe fn dealloc(entries: *mut Entry<T>, len: u32, cols: u32) {
         let layout = Entry::<T>::layout(cols);
         let arr_layout = Self::layout(len, layout);
+        #[cfg(nucleo_verif)]
+        crate::verif::hb::forget(entries as usize, arr_layout.size());
         for i in 0..len {
             let entry = Bucket::get(entries, i, cols);
             if *(*entry).active.get_mut() {
@@ -604,6 +624,8 @@ impl<T> Entry<T> {
         // this whole thing looks weird. The reason we do this is that
         // we must make sure the pointer retains its provenance which may (or may not?)
         // be lost if we used tail.as_ptr()
+        #[cfg(nucleo_verif)]
+        crate::verif::hb::plain_read(ptr as usize, "Entry::read");
         let data = (*(*ptr).slot.get()).assume_init_ref();
         let tail = std::ptr::addr_of!((*ptr).tail) as *const u8;
         let offset = tail.offset_from(ptr as *mut u8) as usize;
